@@ -1,4 +1,11 @@
-"""C17 — simulation input export is complete and faithful (DESIGN.md 6.16)."""
+"""C17 — simulation input export is complete and faithful (DESIGN.md 6.16).
+
+Streams: spec validation (nearest_double / round_dbl against CPython, generated names), corpus, exhaustive-small,
+float-midpoints (many-digit Scalars beside float midpoints in every float field, all forms / prefixes, range ends),
+float-path (hdl21.sim.proto.export_float on single Prefixed values), random-valid, malformed.  Per case Coq evaluates the
+specification on the implementation's SimInput (every double against nearest_double), the symbolic model against it through the
+tree's float() table, and the model with computed float fields (Model/C17Float.v, round_dec) bit for bit.  Second-rounding
+coverage targets (Cover) are measured on the accepted calls and fail closed."""
 import json, copy, math, time
 from decimal import Decimal, Context
 from fractions import Fraction
